@@ -181,6 +181,15 @@ static void kmac(void)
 {
     uint8_t key[64], msg[64], cust[64], e[80];
     hx_fill(key, 64, pat, 1); hx_fill(msg, 64, pat, 4); hx_fill(cust, 64, pat, 5);
+    /* declared output lengths around and beyond the 32-bit bit-count field (2^29 bytes and more mean arbitrary length), through init and through reinit; the first 40 bytes are compared */
+    { static const size_t big[] = {((size_t)1 << 29) - 1, (size_t)1 << 29, ((size_t)1 << 29) + 1, (size_t)1 << 31, (size_t)1 << 32, ((size_t)1 << 61) + 3, (size_t)-1};
+      for (unsigned d = 0; d < sizeof big / sizeof big[0]; d++) for (int cl = 0; cl <= 5; cl += 5) for (int re = 0; re < 2; re++) {
+        uint8_t o[40]; ref_cxof2(A, (const uint8_t *)"KMAC", 4, cust, cl, big[d], key, 19, msg, 11, e, 40);
+        if (A) { ascon_kmaca_state_t s; if (re) { ascon_kmaca_init(&s, msg, 3, key, 2, 32); ascon_kmaca_absorb(&s, msg, 5); ascon_kmaca_reinit(&s, key, 19, cust, cl, big[d]); } else ascon_kmaca_init(&s, key, 19, cust, cl, big[d]); ascon_kmaca_absorb(&s, msg, 11); ascon_kmaca_squeeze(&s, o, 40); ascon_kmaca_free(&s); }
+        else { ascon_kmac_state_t s; if (re) { ascon_kmac_init(&s, msg, 3, key, 2, 32); ascon_kmac_absorb(&s, msg, 5); ascon_kmac_reinit(&s, key, 19, cust, cl, big[d]); } else ascon_kmac_init(&s, key, 19, cust, cl, big[d]); ascon_kmac_absorb(&s, msg, 11); ascon_kmac_squeeze(&s, o, 40); ascon_kmac_free(&s); }
+        hx_stat("evaluations", 1); hx_stat("nontrivial", 1);
+        if (memcmp(o, e, 40)) hx_fail(A ? "kmaca:declared-large" : "kmac:declared-large", "declared output length %zu (%s, customisation of %d bytes) differs from cXOF('KMAC', custom, declared)", big[d], re ? "reinit" : "init", cl);
+      } }
     int maxk = tier ? 40 : 40, maxm = tier ? 20 : 17, maxc = tier ? 20 : 17;
     static const int outs[] = {0, 1, 7, 8, 9, 16, 31, 32, 33, 40, 64};
     for (int kl = 0; kl <= maxk; kl += (tier || kl < 18) ? 1 : 11)
